@@ -86,8 +86,9 @@ def jobs(tier):
     if q:
         combos = [(f, b, s, 2, 1) for f in ("oid", "path") for b in (1, 3) for s in (0, 1)]
     else:
-        combos = [(f, b, s, 2, 2) for f in ("oid", "path", "mixed", "oid-ci", "oid-filt") for b in (0, 1, 3) for s in (0, 1)] + \
-                 [(f, 3, s, 3, 1) for f in ("oid", "path") for s in (0, 1)]
+        combos = [(f, b, s, 2, 2) for f in ("oid", "path", "mixed") for b in (1, 3) for s in (0, 1)] + \
+                 [(f, b, s, 2, 1) for f in ("oid-ci", "oid-filt") for b in (0, 1, 3) for s in (0, 1)] + \
+                 [("oid", 3, s, 3, 1) for s in (0, 1)] + [("path", 3, 0, 3, 1)]
     for f, b, s, n, sl in combos:
         for op in OPS:
             out.append({"harness": "mirror", "params": {"flavour": f, "base": b, "side": s, "nops": n, "slots": sl, "first": op},
